@@ -27,7 +27,7 @@ theorem c04_armed (g : Cfg) (ops : List Op) :
     s.closed = false → s.wl ≠ [] → outArmed s ∨ s.reg = false ∨ s.rearm = true ∨ s.evErr = true := by
   intro s hc hw
   obtain ⟨hd, ha⟩ := reach_inv (g := g) ⟨ops, rfl⟩
-  have hwa : s.isWAdded = true := (ha.wadd hc hd.nohang).mpr hw
+  have hwa : s.isWAdded = true := (ha.wadd hc hd.nohang).mpr (Or.inl hw)
   cases hr : s.reg with
   | false => exact Or.inr (Or.inl rfl)
   | true =>
@@ -37,11 +37,13 @@ theorem c04_armed (g : Cfg) (ops : List Op) :
     | false => exact Or.inl ⟨hr, by simpa using hk, hdis⟩
     | true => exact Or.inr (Or.inr (ha.dis hc hdis))
 
-/-- **C04 (the conn's belief is right).** `isWAdded` holds exactly when a backlog exists, and once
-    registered the kernel's interest set agrees with it (LT, ONESHOT). -/
+/-- **C04 (the conn's belief is right).** `isWAdded` holds exactly when a backlog exists (or an async
+    connect is still in progress), and once registered the kernel's interest set agrees with it
+    (LT, ONESHOT; ET always asks for EPOLLOUT). -/
 theorem c04_belief (g : Cfg) (ops : List Op) :
     let s := run g init ops
-    s.closed = false → (s.isWAdded = true ↔ s.wl ≠ []) ∧ (s.reg = true → s.kOut = (s.isWAdded || g.mode == .et)) := by
+    s.closed = false → (s.isWAdded = true ↔ (s.wl ≠ [] ∨ s.connecting = true)) ∧
+      (s.reg = true → s.kOut = (s.isWAdded || g.mode == .et)) := by
   intro s hc
   obtain ⟨hd, ha⟩ := reach_inv (g := g) ⟨ops, rfl⟩
   exact ⟨ha.wadd hc hd.nohang, ha.kout hc⟩
@@ -66,7 +68,8 @@ theorem c04_evEnd_arms (g : Cfg) (s : S) (hr : Reach g s) (hc : s.closed = false
     · exact absurd (ha.nos (by simp [hm])).2 (by simp [hre])
     · rfl
   have : s.wl.isEmpty = false := by cases h : s.wl <;> simp_all
-  simp [evEnd, hd.nohang, hre, he, resetPollerEvent, hm, hc, this, pModWrite, kctl, hreg, outArmed]
+  cases hcv : s.connEv <;>
+    simp [evEnd, hd.nohang, hre, he, hcv, cResetRead, resetPollerEvent, hm, hc, this, pModWrite, kctl, hreg, outArmed]
 
 /-- **C04 (flush terminates).** The `flush` loop never spins: no reachable state is `hung` (the queue
     never holds an empty item, so every iteration makes the kernel consume an answer; the fuel
@@ -84,69 +87,75 @@ theorem c04_progress (g : Cfg) (s : S) (n0 : Nat) (ks : List KAns) (hr : Reach g
     (hw : s.wl ≠ []) (hn0 : 0 < n0) : backlog (flush g s (.wrote n0 :: ks)).wl < backlog s.wl :=
   flush_progress g s n0 ks hc (reach_inv hr).1.pos hw hn0
 
+/-- flush looks at the queue and the closed flag only -/
+theorem flush_backlog_congr (g : Cfg) (s t : S) (ks : List KAns) (h1 : t.closed = s.closed) (h3 : t.wl = s.wl) :
+    backlog (flush g t ks).wl = backlog (flush g s ks).wl := by
+  have e : ∀ fuel (a b : S) (ks : List KAns), a.wl = b.wl →
+      (flushLoop g fuel a ks).wl.map Item.todo = (flushLoop g fuel b ks).wl.map Item.todo := by
+    intro fuel
+    induction fuel with
+    | zero => intro a b ks h; simp [flushLoop, h]
+    | succ fuel ih =>
+      intro a b ks h
+      unfold flushLoop
+      rw [← h]
+      split
+      · rw [wl_cResetRead, wl_cResetRead, h]
+      · simp only
+        split
+        · exact ih a b ks h
+        split
+        · rw [h]
+        · rw [h]
+        · exact ih a b _ h
+        · simp [closeNow]
+        · split
+          · exact ih a b _ h
+          split
+          · exact ih _ _ _ rfl
+          · exact ih _ _ _ rfl
+      · split
+        · exact ih a b ks h
+        split
+        · rw [h]
+        · rw [h]
+        · exact ih a b _ h
+        · simp [closeNow]
+        · simp only
+          split
+          · exact ih a b _ h
+          split
+          · exact ih _ _ _ rfl
+          · exact ih _ _ _ rfl
+  unfold flush
+  rw [h1, h3]
+  split
+  · rw [h3]
+  split
+  · rw [h3]
+  · simp only [backlog]; rw [e _ t s ks h3]
+
 /-- **C04 (the delivered event reaches flush).** In a reachable open state with a backlog and EPOLLOUT
-    armed, a reported EPOLLOUT is delivered and handled by `flush` (so `c04_progress` applies to it). -/
+    armed (no async connect in progress), a reported EPOLLOUT is delivered and handled by `flush`
+    (so `c04_progress` applies to it). -/
 theorem c04_event_flushes (g : Cfg) (s : S) (inn err : Bool) (ks : List KAns) (hr : Reach g s)
-    (hc : s.closed = false) (ha : outArmed s) (hre : s.rearm = false) (hee : s.evErr = false) :
+    (hc : s.closed = false) (ha : outArmed s) (hre : s.rearm = false) (hee : s.evErr = false)
+    (hcn : s.connecting = false) :
     backlog (evTake g s true inn err ks).wl = backlog (flush g s ks).wl := by
-  have hd := (reach_inv hr).1
+  obtain ⟨hd, hia⟩ := reach_inv hr
   obtain ⟨h1, h2, h3⟩ := ha
+  have hcv : s.connEv = false := by
+    cases h : s.connEv
+    · rfl
+    · have := hia.cev h; simp [hcn] at this
   have hdl : deliverable s true inn err = (true, inn, err) := by
-    simp [deliverable, hd.nohang, h1, hc, h3, hre, hee, h2]
+    simp [deliverable, hd.nohang, h1, hc, h3, hre, hee, h2, hcn, hcv]
   unfold evTake
   simp only [hdl]
-  simp only [Bool.true_or, Bool.not_true, Bool.false_eq_true, if_false, if_true]
-  split
-  · -- ONESHOT: the kernel disarms first; flush does not look at that flag
-    have : ∀ (t : S), D t = D s → backlog (flush g t ks).wl = backlog (flush g s ks).wl := by
-      intro t ht
-      simp only [D, Prod.mk.injEq] at ht
-      obtain ⟨d1, d2, d3, d4, d5, d6⟩ := ht
-      have e : ∀ fuel (a b : S) (ks : List KAns), a.wl = b.wl → (flushLoop g fuel a ks).wl.map Item.todo = (flushLoop g fuel b ks).wl.map Item.todo := by
-        intro fuel
-        induction fuel with
-        | zero => intro a b ks h; simp [flushLoop, h]
-        | succ fuel ih =>
-          intro a b ks h
-          unfold flushLoop
-          rw [← h]
-          split
-          · rw [wl_cResetRead, wl_cResetRead, h]
-          · simp only
-            split
-            · exact ih a b ks h
-            split
-            · rw [h]
-            · rw [h]
-            · exact ih a b _ h
-            · simp [closeNow]
-            · split
-              · exact ih a b _ h
-              split
-              · exact ih _ _ _ rfl
-              · exact ih _ _ _ rfl
-          · split
-            · exact ih a b ks h
-            split
-            · rw [h]
-            · rw [h]
-            · exact ih a b _ h
-            · simp [closeNow]
-            · simp only
-              split
-              · exact ih a b _ h
-              split
-              · exact ih _ _ _ rfl
-              · exact ih _ _ _ rfl
-      unfold flush
-      rw [d1, d3]
-      split
-      · rw [d3]
-      split
-      · rw [d3]
-      · simp only [backlog]; rw [e _ t s ks d3]
-    exact this _ rfl
-  · rfl
+  by_cases hm : (g.mode == Mode.oneshot) = true
+  · simp [hm, hcn]
+    exact flush_backlog_congr g s _ ks rfl rfl
+  · simp [hm, hcn]
 
 /-! ### non-vacuity -/
 
@@ -166,6 +175,15 @@ example :
     let s2 := run g1 init [.register, .write [1, 2, 3] (.wrote 1), .evTake true false false [.wrote 1, .eagain], .evEnd]
     s1.closed = false ∧ s1.wl.length = 1 ∧ s1.disarmed = true ∧ s1.rearm = true ∧
     s2.wl.length = 1 ∧ s2.reg = true ∧ s2.kOut = true ∧ s2.disarmed = false := by
+  decide
+
+/-- DialAsync (LT): a write inside the connected callback leaves a backlog; when the poller finishes the
+    event (`evEnd`: `c.resetRead()`) EPOLLOUT stays armed -/
+example :
+    let s1 := run g0 init [.registerDial, .evTake true false false [], .write [1, 2, 3] (.wrote 1)]
+    let s2 := run g0 init [.registerDial, .evTake true false false [], .write [1, 2, 3] (.wrote 1), .evEnd]
+    s1.connEv = true ∧ s1.wl.length = 1 ∧ s2.connecting = false ∧ s2.wl.length = 1 ∧ s2.isWAdded = true ∧
+    s2.kOut = true ∧ s2.closed = false := by
   decide
 
 /-- progress: room for 2 bytes, backlog 3 → 1 -/
